@@ -1448,7 +1448,7 @@ def kbd_stream(pid, ctx):
     L = 4 if ctx["thorough"] else 3
     k = 0
     for n in range(1, L + 1):
-        for ops in itertools.product(["on", "off", "d", "c"], repeat=n):
+        for ops in itertools.product(["on", "off", "t", "d", "c"], repeat=n):
             if sum(1 for o in ops if o == "c") > 1: continue
             cases.append(f"kx{k} " + ";".join(o + ";y" for o in ops)); k += 1
     # longer random scripts with bursts of configuration changes the worker sees as ONE wake-up
@@ -1456,7 +1456,7 @@ def kbd_stream(pid, ctx):
         ops = []; closed = False
         for _ in range(r.randint(3, 8)):
             x = r.random()
-            if x < 0.5: ops.append(";".join(r.choice(["on", "off"]) for _ in range(r.randint(1, 4))))
+            if x < 0.5: ops.append(";".join(r.choice(["on", "off", "t"]) for _ in range(r.randint(1, 4))))
             elif x < 0.75: ops.append("d")
             elif not closed: ops.append("c"); closed = True
             else: ops.append("d")
@@ -1509,13 +1509,14 @@ def kbd_stream(pid, ctx):
         if not what and ons == 1 and "off" not in ops and "c" in ops and eof != 1: what = f"enabled once, one end of input: exactly one EOF event is due, {eof} were handed over"
         if what: s.oracle_failures.append((i, c, o, what))
         s.bump(f"eof={eof}"); s.bump("enabled at the end" if enabled else "disabled at the end")
-        if any(ops[j] in ("on", "off") and ops[j + 1] in ("on", "off") for j in range(len(ops) - 1)): s.bump("coalesced changes")
+        if any(ops[j] in ("on", "off", "t") and ops[j + 1] in ("on", "off", "t") for j in range(len(ops) - 1)): s.bump("coalesced changes")
+        if "t" in ops: s.bump("another configuration value changed while the source ran")
         if eof >= 1 and ons >= 2: s.nontrivial.add(hashlib.md5((c.split(" ", 1)[1] + o).encode()).digest()[:8])
         elif eof >= 1 or ("c" in ops and ons): s.nontrivial.add(hashlib.md5((c.split(" ", 1)[1] + o).encode()).digest()[:8])
         if i % max(1, len(cases) // 3) == 0 and len(s.samples) < 3: s.samples.append({"case": c, "impl": o, "model": mo})
     s.exhaustive = False
     s.note = (f"a real Watchexec instance per case in its own process whose fd 0 is a pipe held by the harness: every script of up to {L} settled steps over "
-              "{keyboard_events(true), keyboard_events(false), input bytes, end of input} plus random longer ones with bursts of unsettled configuration changes; the model (Kb) "
+              "{keyboard_events(true), keyboard_events(false), a change of another configuration value, input bytes, end of input} plus random longer ones with bursts of unsettled configuration changes; the model (Kb) "
               "predicts the number of Keyboard::Eof events the action handler sees; the oracle demands each in exactly one batch, none while disabled or before end of input, at most "
               "one per enabling, none lost when the source ends up enabled at end of input, exactly one in the plain use")
     return s
